@@ -70,7 +70,12 @@ MISSED12 = {"C03/2": "the callbacks were functions, bound methods, partials and 
             "C16/2": "every extra member had a real docstring or none; the extended class now also has a method whose docstring is the empty string and a property whose docstring is whitespace only",
             "C19/2": "the stop was requested exactly once; the stop step may now cancel the serving task twice, or once more later while clients keep the server waiting, and a serving task that ends as CANCELLED is a violation (usage/example_server.py awaits the task after cancelling it)",
             "C20/2": "queue items were the running numbers (all true); items are now arbitrary distinct user values: every fourth a false-valued object, and 0, '', None, (), b'' once each"}
-MISSED = MISSED12 if ROUND == 12 else MISSED11 if ROUND == 11 else MISSED10 if ROUND == 10 else MISSED9 if ROUND == 9 else MISSED8 if ROUND == 8 else MISSED7 if ROUND == 7 else MISSED6 if ROUND == 6 else {} if ROUND != 5 else {"C01/1": "the pool generator never assigned pool_size to an empty pool; added the resize_idle step (size assigned while the pool is empty, all C01 oracles continue with the new size)",
+MISSED13 = {"C05/1": "every starmap/doublestarmap element was an instance of the collections ABCs; added elements that `*`/`**` accept although they are no Iterable/Mapping: the old sequence protocol (__getitem__/__len__ only) and an object with keys() + __getitem__ (a database row)",
+            "C16/1": "no public member of the generated subclasses had a bool parameter that defaults to True; the extended class now has one (`drain(graceful: bool = True, ...)`)",
+            "C16/2": "socket paths were always absolute and the simulated bind() accepted any length; a share of the unix runs now uses a short RELATIVE socket path from inside a deep working directory, and SimNet enforces the sun_path limit (107 bytes) on the path as given",
+            "C17/1": "argument literals never had a bracket character inside a string; added ('(',), ['[x'], ('}', ')'), ('a]', 1)",
+            "C17/2": "get-group-ids was only asked for groups with small task ids, whose set prints in ascending order; added programs with 9-33 one-task groups followed by get-group-ids over several of them ({8, 1} does not print ascending)"}
+MISSED = MISSED13 if ROUND == 13 else MISSED12 if ROUND == 12 else MISSED11 if ROUND == 11 else MISSED10 if ROUND == 10 else MISSED9 if ROUND == 9 else MISSED8 if ROUND == 8 else MISSED7 if ROUND == 7 else MISSED6 if ROUND == 6 else {} if ROUND != 5 else {"C01/1": "the pool generator never assigned pool_size to an empty pool; added the resize_idle step (size assigned while the pool is empty, all C01 oracles continue with the new size)",
           "C03/2": "callbacks were always closures; added callbacks that are bound methods of an object nothing else refers to (kinds sm/am/gm)",
           "C04/1": "the injected factory failure was always a FactoryError; the exception type now varies (FactoryError, TypeError, ValueError, KeyError, AttributeError)",
           "C04/2": "payload keyword names were always kw_x; added payload shapes whose keyword names coincide with the library's own parameter names (group_name, func, num, end_callback, self, args, kwargs ...)",
